@@ -32,3 +32,34 @@ Example C08_partial_progress_rolled_back :
   leafmatch [] (LPyTree (LArr (AC None "a")) (Some "T")) x s = (Rej, s) /\
   fst (leafmatch [] (LPyTree (LArr (AC None "b")) (Some "T")) (Node KTuple [Leaf (PArr (mkvalue true true "float32" [2]%Z))]) s) = Acc.
 Proof. vm_compute. split; reflexivity. Qed.
+
+(* ---------- leaf types without array annotations: int, str, tuples and unions of them ---------- *)
+From JT Require Import proofs.PurePyTreeFacts.
+
+(* typeguard's check of such a leaf type is a pure function of the value *)
+Theorem C08_pure_leaf_check : forall st l, pure l = true -> forall x s, leafmatch st l x s = (vb (pmatch l x), s).
+Proof. exact pure_leafmatch. Qed.
+Print Assumptions C08_pure_leaf_check.
+
+(* PyTree[L] accepts x iff every leaf of x matches L, where a leaf is a topmost subtree that matches L or else a
+   non-container object; None and empty containers contribute no leaves; a top-level None is accepted *)
+Theorem C08_accepts_iff_all_leaves_match : forall st l, pure l = true -> forall x s,
+  fst (leafmatch st (LPyTree l None) x s) = vb (is_none x || forallb (pmatch l) (leaves_of (pmatch l) x)).
+Proof. exact pytree_accepts_iff_all_leaves_match. Qed.
+Print Assumptions C08_accepts_iff_all_leaves_match.
+
+(* PyTree[PyTree[L]] and PyTree[L] accept the same values *)
+Theorem C08_nested_same : forall st l, pure l = true -> forall x s1 s2,
+  fst (leafmatch st (LPyTree (LPyTree l None) None) x s1) = fst (leafmatch st (LPyTree l None) x s2).
+Proof. exact nested_pytree_same. Qed.
+Print Assumptions C08_nested_same.
+
+Theorem C08_any_accepts_everything : forall st x s, fst (leafmatch st (LPyTree LAny None) x s) = Acc.
+Proof. exact pytree_any_accepts_everything. Qed.
+Print Assumptions C08_any_accepts_everything.
+
+Example C08_leaves_examples :
+  let i := Leaf (PInt 1) in
+  leaves_of (pmatch LInt) (Node KTuple [Node KNone []; i; Node KTuple []; Node (KDict []) []]) = [i] /\
+  leaves_of (pmatch (LTuple [LInt; LInt])) (Node KList [Node KTuple [i; i]; Node (KNamed "P") [i; i]; Node KTuple [i]]) = [Node KTuple [i; i]; Node (KNamed "P") [i; i]; i].
+Proof. split; reflexivity. Qed.
